@@ -48,7 +48,18 @@
 (*                 signature (pages/__init__.py:59-66), "Broken            *)
 (*                 description" for a summary (epydoc2stan.py:808)         *)
 (*                                                                         *)
-(* Payload classes: "plain" (every character can be written in XML) and    *)
+(*   RstInterpolate  extensions/deprecate.py pastes the replacement= string *)
+(*                 of @deprecated(...) between backticks into the reST     *)
+(*                 source of a ".. deprecated::" directive (deprecate.py   *)
+(*                 :144-156, :43-49)                                       *)
+(*   RstReparse    the part of that text behind a line separator is read   *)
+(*                 by docutils as reST structure of its own (docutils      *)
+(*                 splits its input with str.splitlines())                 *)
+(*   DocutilsRaw   ... e.g. a raw directive, whose content the HTML        *)
+(*                 writer copies unescaped (visit_raw)                     *)
+(*                                                                         *)
+(* Payload classes: "linesep" (only matters where text is pasted into reST *)
+(* source: it holds a line separator other than "\n"), "plain" (every character can be written in XML) and    *)
 (* "xmlbreak" (holds a character that makes html2stan raise): every route  *)
 (* with a ParseXml stage is cut at its first ParseXml and continues with   *)
 (* the fallback of its zone - which must also end at level 1, or nowhere.  *)
@@ -68,7 +79,10 @@
 (***************************************************************************)
 EXTENDS Integers, Sequences, FiniteSets, TLC, Json, IOUtils
 
-CONSTANT Source          \* "enum" | "file"
+CONSTANTS Source,         \* "enum" | "file"
+          DeprecateQuoting \* what extensions/deprecate.py neutralises in a non-identifier replacement= string before
+                           \* it is pasted into reST source: "newline_only" (deprecate.py:147, replace('\n', ' ')) |
+                           \* "all_separators" (every separator docutils splits lines at, and backticks)
 
 DocFormats == {"epytext", "restructuredtext", "plaintext", "google", "numpy"}
 Docutils == DocFormats \ {"plaintext"}     \* formats rendered through docutils nodes
@@ -82,7 +96,9 @@ Routes ==
     signature  |-> <<"ToNode", "DocutilsEncode", "StrFormat", "ParseXml", "FlattenToFile">>,
     xrefrst    |-> <<"ToNode", "LinkLabel", "FlattenInner", "ParseXml", "FlattenToFile">>,
     xrefepy    |-> <<"ToNode", "DocutilsEncode", "ParseXml", "LinkLabel", "FlattenInner", "ParseXml", "FlattenToFile">>,
-    doctest    |-> <<"ToNode", "Colorize", "FlattenInner", "ParseXml", "FlattenToFile">> ]
+    doctest    |-> <<"ToNode", "Colorize", "FlattenInner", "ParseXml", "FlattenToFile">>,
+    rstquote   |-> <<"RstInterpolate", "ToNode", "DocutilsEncode", "ParseXml", "FlattenToFile">>,
+    rstraw     |-> <<"RstInterpolate", "RstReparse", "DocutilsRaw", "ParseXml", "FlattenToFile">> ]
 
 \* container before -> after, level change
 Stage ==
@@ -98,7 +114,10 @@ Stage ==
     FlattenToFile  |-> [from |-> {"stan"},         to |-> "file", d |-> 1],
     ParseXmlFails  |-> [from |-> {"html"},         to |-> "lost", d |-> 0],
     Fallback       |-> [from |-> {"lost"},         to |-> "stan", d |-> 0],   \* level := 0, see Apply
-    Elide          |-> [from |-> {"lost"},         to |-> "none", d |-> 0] ]
+    Elide          |-> [from |-> {"lost"},         to |-> "none", d |-> 0],
+    RstInterpolate |-> [from |-> {"src"},          to |-> "src",  d |-> 0],
+    RstReparse     |-> [from |-> {"src"},          to |-> "node", d |-> 0],
+    DocutilsRaw    |-> [from |-> {"node"},         to |-> "html", d |-> 0] ]
 
 \* ----------------------------------------------------------------------------- sinks per source kind
 S(z, c, q) == [zone |-> z, ctx |-> c, quoted |-> q]
@@ -161,6 +180,10 @@ Feeds ==
   \*                                                   (astbuilder.py:1034, pages/__init__.py:54)
   \cup { Feed("default", S("signature", "text", FALSE), "signature") }
   \cup { Feed("annotation", S("signature", "text", FALSE), "signature") }
+  \* @deprecated(Version(...), replacement="text"): shown in the ".. deprecated::" box above the docstring
+  \*   (objectExtras, pages/__init__.py:326); with a line separator in the text, what follows is reST of its own
+  \cup { Feed("deprecated", S("docstring", "text", FALSE), "rstquote") }
+  \cup { Feed("deprecated", S("docstring", "text", FALSE), "rstraw") }
   \* options                                                              (pages/__init__.py:182-186)
   \cup { Feed("projname", S(z, "text", FALSE), "stan") : z \in {"alldocs", "footer", "navbar"} }
   \cup { Feed("projurl", S(z, "url", FALSE), "stan") : z \in {"alldocs", "footer", "navbar"} }
@@ -168,16 +191,21 @@ Feeds ==
 Kinds == {f.kind : f \in Feeds}
 
 \* ----------------------------------------------------------------------------- payload classes and fallbacks
-Classes == {"plain", "xmlbreak"}
+Classes == {"plain", "xmlbreak", "linesep"}
+\* a feed only exists for some payload classes
+Active(f, cls) ==
+  /\ (cls = "linesep") => f.kind = "deprecated"           \* elsewhere a line separator is an ordinary character
+  /\ (f.route = "rstraw") => (cls = "linesep" /\ DeprecateQuoting = "newline_only")
 FirstParse(r) == CHOOSE i \in 1..Len(r) : r[i] = "ParseXml" /\ \A j \in 1..(i - 1) : r[j] # "ParseXml"
 HasParse(r) == \E i \in 1..Len(r) : r[i] = "ParseXml"
 Cut(r) == SubSeq(r, 1, FirstParse(r) - 1) \o <<"ParseXmlFails">>
 \* which fallback the caller of the failing html2stan has
 Elided(f) == f.zone \in SummaryZones \cup {"signature"}      \* format_summary_fallback, format_signature
              \/ f.ctx = "url"                               \* the link is gone with the parsed docstring
+             \/ f.kind = "deprecated"                       \* objectExtras: fallback is BROKEN (pages/__init__.py:334)
 RouteSeq(f, cls) ==
   LET r == Routes[f.route] IN
-  IF cls = "plain" \/ ~HasParse(r) THEN r
+  IF cls # "xmlbreak" \/ ~HasParse(r) THEN r
   ELSE IF Elided(f) THEN Cut(r) \o <<"Elide">>
   ELSE Cut(r) \o <<"Fallback", "FlattenToFile">>
 
@@ -203,8 +231,9 @@ Final(f, cls) == LET w == Flow(f, cls) IN w[Len(w)].lout
 Observable == {"DocutilsEncode", "ParseXml", "FlattenInner"}   \* stages the harness wraps
 Rng(s) == {s[i] : i \in DOMAIN s}
 StepsOf(f, cls) == { <<x.stage, x.lin, x.lout>> : x \in {y \in Rng(Flow(f, cls)) : y.stage \in Observable} }
-ModelSteps(k, cls) == UNION { StepsOf(f, cls) : f \in {g \in Feeds : g.kind = k} }
-ModelSinks(k, cls) == { <<f.zone, f.ctx, f.quoted, Final(f, cls)>> : f \in {g \in Feeds : g.kind = k /\ Reaches(g, cls)} }
+ModelSteps(k, cls) == UNION { StepsOf(f, cls) : f \in {g \in Feeds : g.kind = k /\ Active(g, cls)} }
+ModelSinks(k, cls) == { <<f.zone, f.ctx, f.quoted, Final(f, cls)>> :
+                          f \in {g \in Feeds : g.kind = k /\ Active(g, cls) /\ Reaches(g, cls)} }
 
 \* observed flows handed in by the harness:
 \*   <<[kind, variant, cls, sinks |-> <<<<zone, ctx, quoted, level>>>>, events |-> <<<<stage, lin, lout>>>>]>>
@@ -213,12 +242,13 @@ Observed == IF Source = "file" THEN JsonDeserialize(IOEnv.C10_OBSERVED) ELSE <<>
 VARIABLES pair,     \* the (kind, sink, route) being walked        (enum)   / observation number (file)
           cls,      \* payload class
           pc,       \* next stage of the route
-          level, cont, parsedRaw, hist
-vars == <<pair, cls, pc, level, cont, parsedRaw, hist>>
+          level, cont, parsedRaw, reparsed, hist
+vars == <<pair, cls, pc, level, cont, parsedRaw, reparsed, hist>>
 
 Init ==
-  /\ IF Source = "enum" THEN pair \in Feeds /\ cls \in Classes ELSE pair \in 1..Len(Observed) /\ cls = "plain"
-  /\ pc = 1 /\ level = 0 /\ cont = "src" /\ parsedRaw = FALSE /\ hist = <<>>
+  /\ IF Source = "enum" THEN pair \in Feeds /\ cls \in Classes /\ Active(pair, cls)
+     ELSE pair \in 1..Len(Observed) /\ cls = "plain"
+  /\ pc = 1 /\ level = 0 /\ cont = "src" /\ parsedRaw = FALSE /\ reparsed = FALSE /\ hist = <<>>
 
 Route == IF Source = "enum" THEN RouteSeq(pair, cls) ELSE <<>>
 
@@ -229,6 +259,7 @@ Step ==
        /\ level' = Apply(st, level)
        /\ cont' = Stage[st].to
        /\ parsedRaw' = (parsedRaw \/ (st \in {"ParseXml", "ParseXmlFails"} /\ level = 0))
+       /\ reparsed' = (reparsed \/ st = "RstReparse")
        /\ hist' = Append(hist, <<ObsStage(st), level, ObsOut(st, level)>>)
   /\ pc' = pc + 1
   /\ UNCHANGED <<pair, cls>>
@@ -240,6 +271,12 @@ Done == pc = Len(Route) + 1
 
 \* ----------------------------------------------------------------------------- properties (model)
 NeverParsedRaw == ~parsedRaw
+\* text pasted into markup source must stay text for that markup's parser too
+NeverReparsedAsMarkup == ~reparsed
+\* known finding deprecate-replacement-reparsed-as-rst: the invariants hold everywhere else
+KF_DeprecateReplacementReparsed == Source = "enum" /\ pair.kind = "deprecated" /\ cls = "linesep" /\ pair.route = "rstraw"
+NeverParsedRawExceptKnown == NeverParsedRaw \/ KF_DeprecateReplacementReparsed
+NeverReparsedAsMarkupExceptKnown == NeverReparsedAsMarkup \/ KF_DeprecateReplacementReparsed
 \* a flow ends in the page at level 1 - or, after an XML error, nowhere; fallback routes included
 SinkLevelOne == (Source = "enum" /\ Done) => ((cont = "file" /\ level = 1) \/ (cont = "none" /\ cls = "xmlbreak"))
 WellTyped == Source = "enum" => (pc <= Len(Route) => cont \in Stage[Route[pc]].from)
@@ -249,7 +286,7 @@ SameAsWalk == (Source = "enum" /\ Done) => hist = [i \in DOMAIN Flow(pair, cls) 
 EmitEnum == (Source = "enum" /\ Done) =>
   PrintT(ToJson([kind |-> pair.kind, zone |-> pair.zone, ctx |-> pair.ctx, quoted |-> pair.quoted, cls |-> cls,
                  route |-> pair.route, stages |-> hist, final |-> level, reaches |-> cont = "file",
-                 parsedRaw |-> parsedRaw, steps |-> {h \in Rng(hist) : h[1] \in Observable}]))
+                 parsedRaw |-> parsedRaw, reparsed |-> reparsed, steps |-> {h \in Rng(hist) : h[1] \in Observable}]))
 
 \* ----------------------------------------------------------------------------- properties (observed)
 ObsSinks(o) == Rng(o.sinks)
